@@ -56,6 +56,10 @@ func c16Options(sc c16Scenario, pop int) *neat.Options {
 	case "addlink":
 		o.MutateOnlyProb, o.MutateAddNodeProb, o.MutateAddLinkProb, o.NewLinkTries = 1, 0, 1, 4
 		o.RecurOnlyProb = 0.5
+	case "addlink0":
+		// the optional NewLinkTries left at its zero value (a configuration that never adds a link)
+		o.MutateOnlyProb, o.MutateAddNodeProb, o.MutateAddLinkProb, o.NewLinkTries = 1, 0, 1, 0
+		o.RecurOnlyProb = 0.5
 	case "mateonly":
 		o.MutateOnlyProb = 0
 		o.InterspeciesMateRate = 0.5
@@ -82,6 +86,7 @@ func c16Scenarios(quick bool) []c16Scenario {
 		{Name: "2 species x 2 offspring, all add-link", HB: two, Profile: "addlink", Policy: "M", Fit: 1},
 		{Name: "3 species x 2 offspring, mixed with mating and interspecies dad", HB: three, Profile: "mixed", Policy: "A", Fit: 2},
 		{Name: "2 species x 2 offspring, mating only (multipoint-avg / single-point)", HB: two, Profile: "mateonly", Policy: "M", Fit: 1},
+		{Name: "2 species x 1 offspring, all add-link with NewLinkTries left unset", HB: hbSpec{Sizes: []int{1, 1}, Ages: []int{1, 1}, Lags: []int{0, 0}}, Profile: "addlink0", Policy: "M", Fit: 1},
 	}
 	if !quick {
 		scs = append(scs,
